@@ -372,3 +372,15 @@ def run(ctx, R, tier):
     R.check(okb and same, "C16-R3", "blob-call|addressed-to-the-same-id", "a SerializedBlob call names, in its BLBI annotation, the object id an ordinary call would carry", sb.loc(),
             "the BLBI annotation does not carry the `objectId` of the call (e.g. the uri's object name instead): through a name-resolved proxy the blob reaches whatever is registered under that word")
 
+    # a registered object is found whatever it looks like: every presence test on a value looked up in the registry is an identity test (shared with C08-R4:
+    # get_metadata answers the connect handshake - `if obj:` would refuse the connection to a registered object that is empty / falsy)
+    from ..report import Rules as _Rules
+    from . import c08 as _c08
+    R8 = _Rules("C08")
+    _c08.run(ctx, R8, tier)
+    shared = [o for o in R8.obs if o.key == "C08-R4|get_metadata|unknown-object-raises"]
+    if not shared:
+        R.note("the C08-R4 get_metadata instance was not produced on this tree (C08 reports why); nothing shared")
+    for o in shared:
+        R.add("C16-R3", "get_metadata|registered-means-not-None", "DaemonObject.get_metadata (the handshake's lookup) treats exactly `None` as unknown: a registered object that is "
+              "falsy (an empty container-like object) is still connected to", o.ok, o.loc, o.detail)
